@@ -7,6 +7,7 @@ import (
 	publictypes "lunar/engine/streams/public-types"
 	streamtypes "lunar/engine/streams/types"
 	"lunar/toolkit-core/otel"
+	"lunar/toolkit-core/verifhook"
 
 	lunar_metrics "lunar/engine/metrics"
 
@@ -85,6 +86,9 @@ func (p *limiterProcessor) Execute(
 
 	if err = quota.Inc(apiStream); err != nil {
 		return streamtypes.ProcessorIO{}, err
+	}
+	if verifhook.Enabled {
+		verifhook.Yield("limiter.between-inc-and-allowed", apiStream.GetID())
 	}
 
 	isAllowed, err := quota.Allowed(apiStream)
